@@ -473,6 +473,26 @@ def check_meter(run: Run, cx: Ctx) -> None:
             ok = c == ("or", frozenset({("truthy", f"GRAPH.{leaf}(%1)"), ("truthy", f"GRAPH.is_{kind}_meter(%1)")}))
         run.check(ok, "C12.METER", ch.qual if ch else cg.qual, f"is_{kind}_chain = {leaf} or is_{kind}_meter",
                   f"`is_{kind}_chain` is not `{leaf} or is_{kind}_meter`", node=ch.node if ch else cg.node, file=cg.module.rel)
+    # what every `not is_grid_meter` above (and the consumer variants) relies on: the grid meter is the meter that
+    # is the ONLY successor of the grid connection — counted over all successors, not over some of them
+    gm = cg.methods.get("is_grid_meter")
+    if gm is None:
+        raise AnalysisError("is_grid_meter not found")
+    run.analysed(gm.qual)
+    c, _e = cx.predicate(gm, graph_self=True)
+    pred = "GRAPH.predecessors(%1.component_id)"
+    forms = []
+    for one in (f"next(iter({pred}))", f"{pred}.pop()", f"list({pred})[0]", f"[*{pred}][0]"):
+        forms.append(("and", frozenset({("==", frozenset({"%1.category", METER})),
+                                        ("==", frozenset({"1", f"len({pred})"})),
+                                        ("==", frozenset({f"{one}.category", "ComponentCategory.GRID"})),
+                                        ("==", frozenset({"1", f"len(GRAPH.successors({one}.component_id))"}))})))
+    run.check(c in forms, "C12.METER", gm.qual, "grid meter = the meter that is the only successor of the grid",
+              "`is_grid_meter` is not `a METER whose single predecessor is the GRID and which is that grid's only "
+              "successor` (e.g. only *meter* successors counted, `>= 1`, another predecessor category): with several "
+              "grid successors a dedicated device meter would be classed as grid meter — it then drops out of its "
+              "device chain and the no-grid-meter consumer formula counts its reading as consumption",
+              node=gm.node, file=gm.file)
     fg = prog.cls(f"{GEN}._formula_generator:FormulaGenerator")
     if cx.R["_is_primary_fallback_pair"] is not None:
         pf = fg.methods[cx.R["_is_primary_fallback_pair"]]
@@ -1127,9 +1147,13 @@ def check_guards(run: Run, cx: Ctx, fn: FuncInfo, cfg: CFG, defs: dict[str, ast.
             for st in stmts:
                 inner = [f for f in fors if any(x is cfg.nodes[st].ast for x in ast.walk(f.ast))]  # type: ignore[arg-type]
                 ok = ok and bool(inner)
-                if inner:
-                    f = max(inner, key=lambda f: f.lineno)
-                    ok = ok and all(e in stmts or cfg.path(e, [f.id], avoid=stmts, edge_ok=normal) is None
+                # no element is skipped: every non-raising iteration of *every* enclosing loop reaches the next
+                # inner loop, and the innermost one the store (an early `continue` for elements believed to be
+                # covered already silently drops the other inverters of a shared battery)
+                chain = sorted(inner, key=lambda f: f.lineno)
+                for k, f in enumerate(chain):
+                    through = stmts if k == len(chain) - 1 else {chain[k + 1].id}
+                    ok = ok and all(e in through or cfg.path(e, [f.id], avoid=through, edge_ok=normal) is None
                                     for e, lab in cfg.succ[f.id] if lab == "iter")
             why = "the summed mapping is filled on every iteration"
             if ok and short == "BatteryPowerFormula.generate":
@@ -1410,6 +1434,12 @@ CONTROLS = [
      "            if all(successor in chps for successor in meter_successors):\n", "C12.EMIT"),
     ("grid successors refused when present", f"{GEN}._formula_generator",
      "        if not grid_successors:\n            raise ComponentNotFound(", "        if grid_successors:\n            raise ComponentNotFound(", "C12.EMIT"),
+    ("grid meter need not be the only grid successor", CG_MOD,
+     "        return len(grid_successors) == 1\n", "        return len(grid_successors) >= 1\n", "C12.METER"),
+    ("batteries believed covered are skipped", f"{GEN}._battery_power_formula",
+     "        for bat_id in component_ids:\n            inverters = set(",
+     "        for bat_id in component_ids:\n            if any(bat_id in {b.component_id for b in bs} for bs in inv_bat_mapping.values()):\n"
+     "                continue\n            inverters = set(", "C12.EMIT"),
     ("pairing loop stops at the first paired device", f"{GEN}._formula_generator",
      "                        fallbacks.setdefault(predecessor, set()).add(component)\n                        continue\n",
      "                        fallbacks.setdefault(predecessor, set()).add(component)\n                        break\n", "C12.METER"),
